@@ -79,7 +79,7 @@ func TestC14BufferReuse(t *testing.T) {
 			err := s.top.Tell(tctx, r.script.Local, p2p.IOVec{sec})
 			cf()
 			if err != nil {
-				t.Fatalf("harness: honest tell failed: %v", err)
+				t.Fatalf("%s", ev.Tag(fmt.Sprintf("harness: honest tell failed: %v", err)))
 			}
 			for _, f := range s.script.Take() {
 				if p, ok := r.script.Inject(s.script.Local, f.Data, 2*time.Second); !ok || p != "" {
